@@ -9,6 +9,8 @@ package main
 //	core/schedule/{do_at,start_sync}.go                      struct doAtSchedule (+ embedded StartSync) -> record `DoAtSt`;
 //	                                                         NewDoAtSchedule, MarkStarted, Start, Next, Left -> state-passing functions
 //	core/import/import.go                                    register.Limiter(name, schedule.F) calls of Import() -> table `limiters`
+//	core/config/{validator,validations}.go                   the functions registered for the tag keys `min-time` / `max-time`
+//	                                                         -> comparisons `MinTimeValidation` / `MaxTimeValidation` the predicates apply
 //
 // Reading of Go used by the method translator (trusted, see notes/C01.md):
 //
@@ -49,6 +51,8 @@ type schTr struct {
 	t   *tr
 	pkg *packages.Package
 	tmp int
+	// validate-tag key ("min-time", "max-time") -> name of the regenerated comparison of core/config (scheduleTimeValidations)
+	timeFn map[string]string
 }
 
 func (x *schTr) fail(n ast.Node, format string, a ...any) string {
@@ -203,13 +207,13 @@ func (x *schTr) rule(at ast.Node, rule string, f schField) string {
 		if l, ok := lit(param); ok {
 			return "(" + f.name + " < " + l + ")"
 		}
-	case "min-time":
+	case "min-time", "max-time":
+		// these two keys are not the validator library's: core/config registers its own functions for them; the rule is
+		// an application of the comparison regenerated from that function (parameter first, field second)
 		if l, ok := dur(param); ok {
-			return "(" + l + " ≤ " + f.name + ")"
-		}
-	case "max-time":
-		if l, ok := dur(param); ok {
-			return "(" + f.name + " ≤ " + l + ")"
+			if fn := x.timeFn[key]; fn != "" {
+				return "(" + fn + " " + l + " " + f.name + ")"
+			}
 		}
 	}
 	return x.fail(at, "validate rule %q on field %s", rule, f.name)
@@ -338,6 +342,516 @@ func (x *schTr) limiters() string {
 	})
 	return "/-- regenerated from `core/import/import.go` func `Import`: every `register.Limiter(name, schedule.F)` in source order -/\n" +
 		"def limiters : List (String × String) :=\n  [" + strings.Join(rows, ", ") + "]\n\n"
+}
+
+// ---------------------------------------------------------------- core/config: the functions behind `min-time=` / `max-time=`
+
+// scheduleTimeValidations regenerates, from core/config/validator.go + validations.go, what the tag keys `min-time` and
+// `max-time` MEAN: the table `validations` says which function is registered for the key; the function must be
+//
+//	a, b, c := getTimeForValidation(fl.Field().Interface(), fl.Param())
+//	return c && <comparison of a and b>          (operands and conjuncts in any order, `!( … )` allowed)
+//
+// and getTimeForValidation must return (the field's value asserted to time.Duration, time.ParseDuration of the parameter,
+// whether the assertion held). Emitted: `def <Func> (param field : ℤ) : Prop := <comparison>`.
+func (x *schTr) scheduleTimeValidations() string {
+	x.timeFn = map[string]string{}
+	cp := load("github.com/yandex/pandora/core/config")
+	// the registration table
+	reg := map[string]string{}
+	for _, f := range cp.Syntax {
+		for _, d := range f.Decls {
+			gd, ok := d.(*ast.GenDecl)
+			if !ok || gd.Tok != token.VAR {
+				continue
+			}
+			for _, sp := range gd.Specs {
+				vs := sp.(*ast.ValueSpec)
+				if len(vs.Names) != 1 || vs.Names[0].Name != "validations" || len(vs.Values) != 1 {
+					continue
+				}
+				cl, ok := vs.Values[0].(*ast.CompositeLit)
+				if !ok {
+					continue
+				}
+				for _, e := range cl.Elts {
+					row, ok := e.(*ast.CompositeLit)
+					if !ok || len(row.Elts) != 2 {
+						x.failf("core/config: a row of `validations` is not {key, func}")
+						continue
+					}
+					key, ok1 := cfStringConst(cp, row.Elts[0])
+					fn, ok2 := row.Elts[1].(*ast.Ident)
+					if !ok1 || !ok2 {
+						x.failf("core/config: a row of `validations` is not {constant string, function name}")
+						continue
+					}
+					if _, dup := reg[key]; dup {
+						x.failf("core/config: validation key %q registered twice", key)
+					}
+					reg[key] = fn.Name
+				}
+			}
+		}
+	}
+	// getTimeForValidation: (actual, check, ok) = (v.(time.Duration), time.ParseDuration(param), assertion held)
+	helperOK := func() bool {
+		fd := findFunc(cp, "getTimeForValidation")
+		if fd == nil || fd.Type.Results == nil {
+			return false
+		}
+		var ps, rs []string
+		for _, f := range fd.Type.Params.List {
+			for _, n := range f.Names {
+				ps = append(ps, n.Name)
+			}
+		}
+		for _, f := range fd.Type.Results.List {
+			for _, n := range f.Names {
+				rs = append(rs, n.Name)
+			}
+		}
+		if len(ps) != 2 || len(rs) != 3 {
+			return false
+		}
+		isId := func(e ast.Expr, name string) bool { id, ok := e.(*ast.Ident); return ok && id.Name == name }
+		parsed, asserted, other := false, false, false
+		for _, st := range fd.Body.List {
+			switch st := st.(type) {
+			case *ast.AssignStmt:
+				if len(st.Rhs) != 1 {
+					other = true
+					continue
+				}
+				switch r := st.Rhs[0].(type) {
+				case *ast.CallExpr:
+					sel, ok := r.Fun.(*ast.SelectorExpr)
+					if ok && isId(sel.X, "time") && sel.Sel.Name == "ParseDuration" && len(r.Args) == 1 && isId(r.Args[0], ps[1]) &&
+						len(st.Lhs) == 2 && isId(st.Lhs[0], rs[1]) {
+						parsed = true
+						continue
+					}
+				case *ast.TypeAssertExpr:
+					ty, ok := r.Type.(*ast.SelectorExpr)
+					if ok && isId(r.X, ps[0]) && isId(ty.X, "time") && ty.Sel.Name == "Duration" && len(st.Lhs) == 2 &&
+						isId(st.Lhs[0], rs[0]) && isId(st.Lhs[1], rs[2]) {
+						asserted = true
+						continue
+					}
+				}
+				other = true
+			case *ast.IfStmt:
+				// `if err != nil { return }`: a parameter that is no duration validates nothing
+				if len(st.Body.List) != 1 || st.Else != nil {
+					other = true
+					continue
+				}
+				if ret, ok := st.Body.List[0].(*ast.ReturnStmt); !ok || len(ret.Results) != 0 {
+					other = true
+				}
+			case *ast.ReturnStmt:
+				if len(st.Results) != 0 {
+					other = true
+				}
+			default:
+				other = true
+			}
+		}
+		return parsed && asserted && !other
+	}()
+	if !helperOK {
+		x.failf("core/config: getTimeForValidation is not (v.(time.Duration), time.ParseDuration(param), ok)")
+	}
+	var b strings.Builder
+	b.WriteString("-- ---------------------------------------------------------------- core/config: what the tag keys `min-time` / `max-time` mean\n\n")
+	var names []string
+	for _, key := range []string{"min-time", "max-time"} {
+		fn := reg[key]
+		if fn == "" {
+			x.failf("core/config: no validation registered for %q", key)
+			continue
+		}
+		fd := findFunc(cp, fn)
+		if fd == nil || len(fd.Body.List) != 2 {
+			x.failf("core/config: %s is not `a, b, ok := getTimeForValidation(…); return …`", fn)
+			continue
+		}
+		as, ok1 := fd.Body.List[0].(*ast.AssignStmt)
+		ret, ok2 := fd.Body.List[1].(*ast.ReturnStmt)
+		if !ok1 || !ok2 || len(as.Lhs) != 3 || len(as.Rhs) != 1 || len(ret.Results) != 1 {
+			x.failf("core/config: %s is not `a, b, ok := getTimeForValidation(…); return …`", fn)
+			continue
+		}
+		call, ok := as.Rhs[0].(*ast.CallExpr)
+		if id, ok2 := call.Fun.(*ast.Ident); !ok || !ok2 || id.Name != "getTimeForValidation" || len(call.Args) != 2 ||
+			types.ExprString(call.Args[0]) != "fl.Field().Interface()" || types.ExprString(call.Args[1]) != "fl.Param()" {
+			x.failf("core/config: %s does not call getTimeForValidation(fl.Field().Interface(), fl.Param())", fn)
+			continue
+		}
+		var nm [3]string
+		for i, l := range as.Lhs {
+			if id, ok := l.(*ast.Ident); ok {
+				nm[i] = id.Name
+			}
+		}
+		bad := false
+		var trE func(e ast.Expr) string
+		trE = func(e ast.Expr) string {
+			switch e := e.(type) {
+			case *ast.ParenExpr:
+				return trE(e.X)
+			case *ast.Ident:
+				switch e.Name {
+				case nm[0]:
+					return "field"
+				case nm[1]:
+					return "param"
+				case nm[2]:
+					return "True" // the field IS a time.Duration (the Lean variable is typed so)
+				}
+			case *ast.UnaryExpr:
+				if e.Op == token.NOT {
+					return "(¬ " + trE(e.X) + ")"
+				}
+			case *ast.BinaryExpr:
+				op := map[token.Token]string{token.LAND: "∧", token.LOR: "∨", token.LEQ: "≤", token.LSS: "<", token.GEQ: "≥",
+					token.GTR: ">", token.EQL: "=", token.NEQ: "≠"}[e.Op]
+				if op != "" {
+					return "(" + trE(e.X) + " " + op + " " + trE(e.Y) + ")"
+				}
+			}
+			bad = true
+			return "(UNSUPPORTED)"
+		}
+		body := trE(ret.Results[0])
+		if bad {
+			x.fail(ret, "core/config: %s: result expression %s", fn, types.ExprString(ret.Results[0]))
+		}
+		x.timeFn[key] = fn
+		names = append(names, fn)
+		pos := cp.Fset.Position(fd.Pos()).Filename
+		pos = strings.TrimPrefix(strings.TrimPrefix(pos, repo), "/")
+		fmt.Fprintf(&b, "/-- regenerated from `%s` func `%s`, which core/config/validator.go registers for the tag key `%s`:\n`return %s` with (%s, %s, %s) = (the field as a time.Duration, the parameter parsed by time.ParseDuration, the field is a time.Duration) -/\ndef %s (param field : ℤ) : Prop :=\n  %s\n\n",
+			pos, fn, key, types.ExprString(ret.Results[0]), nm[0], nm[1], nm[2], fn, body)
+	}
+	b.WriteString("/-- unfolds the regenerated comparisons behind `min-time=` / `max-time=` -/\n")
+	if len(names) == 0 {
+		b.WriteString("macro \"schedule_timeval_unfold\" : tactic => `(tactic| skip)\n\n")
+	} else {
+		b.WriteString("macro \"schedule_timeval_unfold\" : tactic => `(tactic| try simp only [" + strings.Join(names, ", ") + ", true_and, and_true, not_lt, not_le, ge_iff_le, gt_iff_lt] at *)\n\n")
+	}
+	return b.String()
+}
+
+// ---------------------------------------------------------------- core/config: which float64 numbers an int64 option takes
+
+// scheduleNumberHooks regenerates, from core/config/hooks.go, what the two decode hooks that stand in front of every
+// numeric option do with a FLOAT64 given for an INT64 option (`times`, `step`, a `duration` written as a number: JSON
+// configs carry every number as a float64):
+//
+//	WholeNumberHook   f is a float kind, t is one of the listed integer kinds (the list must contain reflect.Int64):
+//	                  `v := reflect.ValueOf(data).Float(); if COND { return nil, … }` -> `def WholeNumberHook_rejects (v : ℝ)`
+//	NumberRangeHook   `case <signed integer kinds>: bits := kindBits(t); switch f { … case reflect.Float32, reflect.Float64:
+//	                  fits = EXPR }` -> `def NumberRangeHook_fits_float (bits : ℕ) (v : ℝ)`; kindBits' row for reflect.Int64
+//
+// Expressions: v / v.Float(), integer literals, bits, + - (binary and unary), comparisons, && || !, math.Trunc, math.Floor,
+// math.IsInf (a real number is never infinite: False), math.IsNaN (False), math.Ldexp(1, e) = 2^e. Anything else fails.
+func (x *schTr) scheduleNumberHooks() string {
+	cp := load("github.com/yandex/pandora/core/config")
+	var b strings.Builder
+	bad := func(n ast.Node, format string, a ...any) {
+		x.t.errs = append(x.t.errs, fmt.Sprintf("%s: unsupported (schedule area, number hooks): %s", cp.Fset.Position(n.Pos()), fmt.Sprintf(format, a...)))
+	}
+	isId := func(e ast.Expr, name string) bool { id, ok := e.(*ast.Ident); return ok && id.Name == name }
+	isSel := func(e ast.Expr, pkg, name string) bool {
+		sel, ok := e.(*ast.SelectorExpr)
+		return ok && isId(sel.X, pkg) && sel.Sel.Name == name
+	}
+	kindsOf := func(list []ast.Expr) []string {
+		var out []string
+		for _, e := range list {
+			if sel, ok := e.(*ast.SelectorExpr); ok && isId(sel.X, "reflect") {
+				out = append(out, sel.Sel.Name)
+			} else {
+				out = append(out, "?")
+			}
+		}
+		return out
+	}
+	has := func(l []string, k string) bool {
+		for _, e := range l {
+			if e == k {
+				return true
+			}
+		}
+		return false
+	}
+	// vName: the float variable; vCall: "v.Float()" spelling with v a reflect.Value
+	var trE func(e ast.Expr, vName string, vIsValue bool, nat bool) string
+	trE = func(e ast.Expr, vName string, vIsValue bool, nat bool) string {
+		switch e := e.(type) {
+		case *ast.ParenExpr:
+			return trE(e.X, vName, vIsValue, nat)
+		case *ast.BasicLit:
+			if e.Kind == token.INT {
+				if nat {
+					return e.Value
+				}
+				return "(" + e.Value + " : ℝ)"
+			}
+		case *ast.Ident:
+			if e.Name == vName && !vIsValue {
+				return "v"
+			}
+			if e.Name == "bits" && nat {
+				return "bits"
+			}
+		case *ast.UnaryExpr:
+			switch e.Op {
+			case token.NOT:
+				return "(¬ " + trE(e.X, vName, vIsValue, nat) + ")"
+			case token.SUB:
+				return "(-" + trE(e.X, vName, vIsValue, nat) + ")"
+			}
+		case *ast.BinaryExpr:
+			op := map[token.Token]string{token.LAND: "∧", token.LOR: "∨", token.LEQ: "≤", token.LSS: "<", token.GEQ: "≥",
+				token.GTR: ">", token.EQL: "=", token.NEQ: "≠", token.ADD: "+", token.SUB: "-"}[e.Op]
+			if op != "" {
+				return "(" + trE(e.X, vName, vIsValue, nat) + " " + op + " " + trE(e.Y, vName, vIsValue, nat) + ")"
+			}
+		case *ast.CallExpr:
+			if sel, ok := e.Fun.(*ast.SelectorExpr); ok {
+				switch {
+				case vIsValue && isId(sel.X, vName) && sel.Sel.Name == "Float" && len(e.Args) == 0:
+					return "v"
+				case isId(sel.X, "math") && sel.Sel.Name == "Trunc" && len(e.Args) == 1:
+					return "(((Go.f2i " + trE(e.Args[0], vName, vIsValue, false) + ") : ℤ) : ℝ)"
+				case isId(sel.X, "math") && sel.Sel.Name == "Floor" && len(e.Args) == 1:
+					return "((⌊" + trE(e.Args[0], vName, vIsValue, false) + "⌋ : ℤ) : ℝ)"
+				case isId(sel.X, "math") && (sel.Sel.Name == "IsInf" || sel.Sel.Name == "IsNaN") && len(e.Args) >= 1:
+					if trE(e.Args[0], vName, vIsValue, false) == "v" {
+						return "False"
+					}
+				case isId(sel.X, "math") && sel.Sel.Name == "Ldexp" && len(e.Args) == 2:
+					if l, ok := e.Args[0].(*ast.BasicLit); ok && l.Value == "1" {
+						return "((2 : ℝ) ^ " + trE(e.Args[1], vName, vIsValue, true) + ")"
+					}
+				}
+			}
+		}
+		bad(e, "expression %s", types.ExprString(e))
+		return "(UNSUPPORTED)"
+	}
+	b.WriteString("-- ---------------------------------------------------------------- core/config: a float64 number given for an int64 option\n\n")
+	b.WriteString("noncomputable section\n\n")
+	// ---- WholeNumberHook
+	if fd := findFunc(cp, "WholeNumberHook"); fd == nil || len(fd.Type.Params.List) < 3 {
+		x.failf("core/config: func WholeNumberHook(f, t, data) not found")
+	} else {
+		var ps []string
+		for _, f := range fd.Type.Params.List {
+			for _, n := range f.Names {
+				ps = append(ps, n.Name)
+			}
+		}
+		var fromKinds, toKinds []string
+		vName, cond := "", ""
+		okShape := len(ps) == 3
+		for _, st := range fd.Body.List {
+			if !okShape {
+				break
+			}
+			switch st := st.(type) {
+			case *ast.IfStmt:
+				ret, _ := st.Body.List[len(st.Body.List)-1].(*ast.ReturnStmt)
+				if ret == nil || len(ret.Results) != 2 || st.Else != nil || st.Init != nil {
+					okShape = false
+					break
+				}
+				if isId(ret.Results[0], ps[2]) && isId(ret.Results[1], "nil") {
+					// `if f != reflect.Float32 && f != reflect.Float64 { return data, nil }`: the kinds that are looked at
+					ok := true
+					var collect func(e ast.Expr)
+					collect = func(e ast.Expr) {
+						be, isB := e.(*ast.BinaryExpr)
+						switch {
+						case isB && be.Op == token.LAND:
+							collect(be.X)
+							collect(be.Y)
+						case isB && be.Op == token.NEQ && isId(be.X, ps[0]):
+							fromKinds = append(fromKinds, kindsOf([]ast.Expr{be.Y})...)
+						default:
+							ok = false
+						}
+					}
+					collect(st.Cond)
+					okShape = okShape && ok
+				} else if isId(ret.Results[0], "nil") && vName != "" && cond == "" {
+					cond = trE(st.Cond, vName, false, false)
+				} else {
+					okShape = false
+				}
+			case *ast.SwitchStmt:
+				if !isId(st.Tag, ps[1]) || st.Init != nil {
+					okShape = false
+					break
+				}
+				for _, cc := range st.Body.List {
+					c := cc.(*ast.CaseClause)
+					if c.List != nil {
+						if len(c.Body) != 0 {
+							okShape = false
+						}
+						toKinds = append(toKinds, kindsOf(c.List)...)
+					} else if len(c.Body) != 1 {
+						okShape = false
+					} else if ret, ok := c.Body[0].(*ast.ReturnStmt); !ok || len(ret.Results) != 2 || !isId(ret.Results[0], ps[2]) || !isId(ret.Results[1], "nil") {
+						okShape = false
+					}
+				}
+			case *ast.AssignStmt:
+				// v := reflect.ValueOf(data).Float()
+				if len(st.Lhs) == 1 && len(st.Rhs) == 1 && types.ExprString(st.Rhs[0]) == "reflect.ValueOf("+ps[2]+").Float()" {
+					if id, ok := st.Lhs[0].(*ast.Ident); ok {
+						vName = id.Name
+						break
+					}
+				}
+				okShape = false
+			case *ast.ReturnStmt:
+				if len(st.Results) != 2 || !isId(st.Results[0], ps[2]) || !isId(st.Results[1], "nil") {
+					okShape = false
+				}
+			default:
+				okShape = false
+			}
+		}
+		if !okShape || cond == "" {
+			bad(fd, "WholeNumberHook is not `if f is no float {pass}; switch t {integer kinds: default: pass}; v := reflect.ValueOf(data).Float(); if COND {reject}; pass`")
+		}
+		if !has(fromKinds, "Float64") || !has(toKinds, "Int64") {
+			bad(fd, "WholeNumberHook does not look at float64 -> int64 (from %v, to %v)", fromKinds, toKinds)
+		}
+		fmt.Fprintf(&b, "/-- regenerated from `core/config/hooks.go` func `WholeNumberHook`: looks at data of kind %s given for a field of kind %s;\nwith `v` the number, it REJECTS iff this holds (a real number is never infinite) -/\ndef WholeNumberHook_rejects (v : ℝ) : Prop :=\n  %s\n\n",
+			strings.Join(fromKinds, "/"), strings.Join(toKinds, "/"), cond)
+	}
+	// ---- NumberRangeHook: case signed integer kinds -> switch f -> case float kinds: fits = EXPR
+	if fd := findFunc(cp, "NumberRangeHook"); fd == nil || len(fd.Type.Params.List) < 3 {
+		x.failf("core/config: func NumberRangeHook(f, t, data) not found")
+	} else {
+		var ps []string
+		for _, f := range fd.Type.Params.List {
+			for _, n := range f.Names {
+				ps = append(ps, n.Name)
+			}
+		}
+		vName, fits, found := "", "", false
+		for _, st := range fd.Body.List {
+			if as, ok := st.(*ast.AssignStmt); ok && len(as.Lhs) == 1 && len(as.Rhs) == 1 && len(ps) == 3 &&
+				types.ExprString(as.Rhs[0]) == "reflect.ValueOf("+ps[2]+")" {
+				if id, ok := as.Lhs[0].(*ast.Ident); ok {
+					vName = id.Name
+				}
+			}
+			sw, ok := st.(*ast.SwitchStmt)
+			if !ok || len(ps) != 3 || !isId(sw.Tag, ps[1]) {
+				continue
+			}
+			for _, cc := range sw.Body.List {
+				c := cc.(*ast.CaseClause)
+				if !has(kindsOf(c.List), "Int64") {
+					continue
+				}
+				// bits := kindBits(t); switch f { … }
+				if len(c.Body) != 2 {
+					bad(c, "NumberRangeHook: the signed-integer case is not `bits := kindBits(t); switch f {…}`")
+					continue
+				}
+				as, ok1 := c.Body[0].(*ast.AssignStmt)
+				in, ok2 := c.Body[1].(*ast.SwitchStmt)
+				if !ok1 || !ok2 || len(as.Lhs) != 1 || !isId(as.Lhs[0], "bits") || types.ExprString(as.Rhs[0]) != "kindBits("+ps[1]+")" || !isId(in.Tag, ps[0]) {
+					bad(c, "NumberRangeHook: the signed-integer case is not `bits := kindBits(t); switch f {…}`")
+					continue
+				}
+				for _, ic := range in.Body.List {
+					icc := ic.(*ast.CaseClause)
+					if !has(kindsOf(icc.List), "Float64") {
+						continue
+					}
+					if len(icc.Body) != 1 {
+						bad(icc, "NumberRangeHook: float case is not `fits = …`")
+						continue
+					}
+					fa, ok := icc.Body[0].(*ast.AssignStmt)
+					if !ok || len(fa.Lhs) != 1 || !isId(fa.Lhs[0], "fits") || fa.Tok != token.ASSIGN {
+						bad(icc, "NumberRangeHook: float case is not `fits = …`")
+						continue
+					}
+					fits = trE(fa.Rhs[0], vName, true, false)
+					found = true
+				}
+			}
+		}
+		// `if !fits { return nil, … }` must follow and nothing else may set fits to true afterwards: checked loosely —
+		// the function's last two statements
+		n := len(fd.Body.List)
+		tailOK := n >= 2
+		if tailOK {
+			ifs, ok1 := fd.Body.List[n-2].(*ast.IfStmt)
+			ret, ok2 := fd.Body.List[n-1].(*ast.ReturnStmt)
+			tailOK = ok1 && ok2 && types.ExprString(ifs.Cond) == "!fits" && len(ret.Results) == 2 && isId(ret.Results[0], ps[2]) && isId(ret.Results[1], "nil")
+			if tailOK {
+				r, ok := ifs.Body.List[len(ifs.Body.List)-1].(*ast.ReturnStmt)
+				tailOK = ok && len(r.Results) == 2 && isId(r.Results[0], "nil")
+			}
+		}
+		if !found || !tailOK {
+			bad(fd, "NumberRangeHook: no `case …Int64: bits := kindBits(t); switch f { case …Float64: fits = … }` followed by `if !fits {reject}; pass`")
+		}
+		fmt.Fprintf(&b, "/-- regenerated from `core/config/hooks.go` func `NumberRangeHook`, signed integer field of `bits` bits, float data `v`:\nthe hook passes the number on iff this holds -/\ndef NumberRangeHook_fits_float (bits : ℕ) (v : ℝ) : Prop :=\n  %s\n\n", fits)
+	}
+	b.WriteString("end\n\n")
+	// ---- kindBits(reflect.Int64)
+	bits64 := ""
+	if fd := findFunc(cp, "kindBits"); fd != nil {
+		ast.Inspect(fd.Body, func(n ast.Node) bool {
+			c, ok := n.(*ast.CaseClause)
+			if !ok || !has(kindsOf(c.List), "Int64") || len(c.Body) != 1 {
+				return true
+			}
+			if ret, ok := c.Body[0].(*ast.ReturnStmt); ok && len(ret.Results) == 1 {
+				if l, ok := ret.Results[0].(*ast.BasicLit); ok && l.Kind == token.INT {
+					bits64 = l.Value
+				}
+			}
+			return true
+		})
+	}
+	if bits64 == "" {
+		x.failf("core/config: kindBits has no `case …reflect.Int64…: return <literal>`")
+		bits64 = "0"
+	}
+	fmt.Fprintf(&b, "/-- regenerated from `core/config/hooks.go` func `kindBits`: the row of reflect.Int64 (int64 and time.Duration options) -/\ndef kindBits_Int64 : ℕ := %s\n\n", bits64)
+	// both hooks must be among the default hooks
+	var hooks []string
+	if fd := findFunc(cp, "DefaultHooks"); fd != nil {
+		ast.Inspect(fd.Body, func(n ast.Node) bool {
+			if cl, ok := n.(*ast.CompositeLit); ok {
+				for _, e := range cl.Elts {
+					hooks = append(hooks, types.ExprString(e))
+				}
+				return false
+			}
+			return true
+		})
+	}
+	var qs []string
+	for _, h := range hooks {
+		qs = append(qs, strconv.Quote(h))
+	}
+	fmt.Fprintf(&b, "/-- regenerated from `core/config/config.go` func `DefaultHooks`: the decode hooks, in the order they are applied -/\ndef defaultHooks : List String :=\n  [%s]\n\n", strings.Join(qs, ", "))
+	_ = isSel
+	return b.String()
 }
 
 // ---------------------------------------------------------------- doAtSchedule as a state machine
@@ -988,6 +1502,8 @@ func scheduleExtra(t *tr) string {
 	} else {
 		b.WriteString(strings.Join(t.auxNames, ", ") + " -/\nmacro \"schedule_aux_unfold\" : tactic => `(tactic| try simp only [" + strings.Join(t.auxNames, ", ") + "] at *)\n\n")
 	}
+	b.WriteString(x.scheduleTimeValidations())
+	b.WriteString(x.scheduleNumberHooks())
 	b.WriteString("-- ---------------------------------------------------------------- what config validation accepts\n\n")
 	b.WriteString("noncomputable section\n\n")
 	for _, c := range [][2]string{{"NewConstConf", "ConstConfig"}, {"NewLineConf", "LineConfig"}, {"NewStepConf", "StepConfig"}, {"NewOnceConf", "OnceConfig"}} {
